@@ -45,6 +45,8 @@ def ref_exempt(host, lst):
         return True
     if host in lst:
         return True
+    if ":" in host:
+        return False  # an IPv6 literal is in no IPv4 block and in no DNS domain
     ip = ip_int(host)
     if ip is not None:
         for e in lst:
@@ -125,6 +127,12 @@ def run(res, tier, seed, shard, nshards):
         decide(h, False, ["x.test", "*", ".zz"], "star-in-list", rule="star")
         decide(h, False, [hosts[(hi + 1) % len(hosts)]], "other-host", rule="host-itself")
         decide(h, False, [], "empty", rule="none")
+    # (a2) IPv6 literal targets: never inside an IPv4 block; exempt only when listed themselves or by "*"
+    if shard == 3 % nshards:
+        for h6 in ("::1", "2001:db8::1", "fe80::1", "::ffff:10.1.2.3"):
+            for lst in (["10.0.0.0/8"], ["0.0.0.0/0"], ["127.0.0.0/8", ".a"], ["10.1.2.3/32", "other.test"], [h6], ["*"], ["10.0.0.0/8", h6], []):
+                decide(h6, False, lst, "ipv6-literal", rule="ipv6")
+                decide(h6, True, lst, "ipv6-literal", rule="ipv6")
     # (b) IPv4 blocks -------------------------------------------------------------
     for p in range(33):
         if p % nshards != shard:
@@ -225,7 +233,7 @@ def run(res, tier, seed, shard, nshards):
                 redirect_hops_case(res, W, variant)
         # the same decision through WebSocketApp.run_forever(), which forwards its own (partly defaulted) proxy options
         if shard == 2 % nshards:
-            for variant in ("option", "option+type-http", "env", "option-exempt", "none"):
+            for variant in ("option", "option+type-http", "env", "option-exempt", "env-exempt-by-option", "env-exempt-by-star", "none"):
                 for secure in (False, True):
                     app_path_case(res, W, variant, secure)
         # direct connection when exempt: no CONNECT, origin dialled
@@ -478,7 +486,11 @@ def app_path_case(res, W, variant, secure):
         kw["proxy_type"] = "http"
     if variant == "option-exempt":
         kw["http_no_proxy"] = ["origin.test"]
-    if variant == "env":
+    if variant == "env-exempt-by-option":
+        kw["http_no_proxy"] = ["other.test", "origin.test"]
+    if variant == "env-exempt-by-star":
+        kw["http_no_proxy"] = ("*",)
+    if variant.startswith("env"):
         os.environ["https_proxy" if secure else "http_proxy"] = "http://proxy.test:3128"
     try:
         run.run_forever(**kw)
